@@ -62,6 +62,81 @@ macro_rules! core_ops3_impl {
                 "glwe_automorphism_key_encrypt_sk",
                 "glwe_automorphism_key_prepare",
                 "gglwe_prepare",
+                "glwe_trace",
+                "glwe_trace_assign",
+                "glwe_pack",
+                "glwe_mul_const",
+                "glwe_mul_const_assign",
+                "glwe_mul_plain",
+                "glwe_mul_plain_assign",
+                "glwe_tensor_apply",
+                "glwe_tensor_apply_add_assign",
+                "glwe_tensor_square_apply",
+                "glwe_tensor_relinearize",
+                "glwe_tensor_key_prepare",
+                "glwe_tensor_key_encrypt_sk",
+                "glwe_rotate_assign",
+                "glwe_mul_xp_minus_one_assign",
+                "glwe_normalize_assign",
+                "glwe_rsh",
+                "glwe_lsh_assign",
+                "glwe_lsh",
+                "glwe_lsh_add",
+                "glwe_lsh_sub",
+                "ggsw_rotate_assign",
+                "glwe_noise",
+                "gglwe_noise",
+                "ggsw_noise",
+                "glwe_compressed_encrypt_sk",
+                "gglwe_compressed_encrypt_sk",
+                "ggsw_compressed_encrypt_sk",
+                "glwe_switching_key_compressed_encrypt_sk",
+                "glwe_automorphism_key_compressed_encrypt_sk",
+                "glwe_tensor_key_compressed_encrypt_sk",
+                "gglwe_to_ggsw_key_compressed_encrypt_sk",
+                "glwe_encrypt_pk",
+                "glwe_encrypt_zero_pk",
+                "glwe_encrypt_zero_sk",
+                "glwe_secret_tensor_prepare",
+                "glwe_tensor_decrypt",
+                "hal_vec_znx_normalize",
+                "hal_vec_znx_big_normalize",
+                "hal_vec_znx_big_automorphism_assign",
+                "hal_vec_znx_automorphism_assign",
+                "hal_vec_znx_rsh",
+                "hal_vec_znx_rsh_add_into",
+                "hal_vec_znx_rsh_sub",
+                "hal_vec_znx_lsh",
+                "hal_vec_znx_lsh_add_into",
+                "hal_vec_znx_lsh_sub",
+                "hal_vec_znx_idft_apply",
+                "hal_vmp_prepare",
+                "hal_vmp_apply_dft_to_dft",
+                "hal_vmp_apply_dft",
+                "hal_cnv_prepare_left",
+                "hal_cnv_prepare_right",
+                "hal_cnv_prepare_self",
+                "hal_cnv_apply_dft",
+                "hal_cnv_pairwise_apply_dft",
+                "hal_cnv_by_const_apply",
+                "cmux_assign",
+                "cmux_assign_neg",
+                "cswap",
+                "blind_rotation_execute",
+                "blind_rotation_execute_extended",
+                "blind_rotation_key_encrypt_sk",
+                "blind_rotation_key_prepare",
+                "fhe_uint_encrypt_sk",
+                "fhe_uint_decrypt",
+                "glwe_blind_selection",
+                "glwe_blind_rotation",
+                "glwe_blind_rotation_assign",
+                "glwe_blind_retrieval_statefull",
+                "glwe_blind_retrieval_statefull_rev",
+                "glwe_blind_retriever_retrieve",
+                "ggsw_blind_rotation",
+                "ggsw_blind_rotation_assign",
+                "scalar_to_ggsw_blind_rotation",
             ];
 
             fn gl(n: u32, b: u32, k: u32, rank: u32) -> GLWELayout {
@@ -740,6 +815,961 @@ macro_rules! core_ops3_impl {
                             m.glwe_keyswitch(&mut res, &a, &kp, big.borrow());
                         }
                         finish(r, declared, vec![res.data().data.clone()])
+                    }
+                    _ => return core_op3_c(op, sh, w),
+                };
+                Some(r)
+            }
+
+            /// Automorphism keys (prepared) for a list of Galois elements, encrypted for real.
+            fn auto_keys(
+                c: &Ctx,
+                sh: &Shape,
+                rank: u32,
+                gal_els: &[i64],
+                big: &mut ScratchOwned<BE>,
+            ) -> std::collections::HashMap<i64, poulpy_core::layouts::GLWEAutomorphismKeyPrepared<DeviceBuf<BE>, BE>> {
+                let mut keys = std::collections::HashMap::new();
+                for p in gal_els {
+                    let atk = atk_real(c, sh, rank, *p, big);
+                    let mut ap = c.module.glwe_automorphism_key_prepared_alloc_from_infos(&atk);
+                    c.module.glwe_automorphism_key_prepare(&mut ap, &atk, big.borrow());
+                    keys.insert(*p, ap);
+                }
+                keys
+            }
+
+            /// Ciphertext arithmetic: trace, packing, products, tensoring, shifts, rotations, noise.
+            fn core_op3_c(op: &str, sh: &Shape, w: &Window) -> Option<RunResult> {
+                use poulpy_core::layouts::{GLWETensor, GLWETensorKey, GLWETensorKeyLayout, GLWETensorKeyPreparedFactory};
+                use poulpy_core::{
+                    GGLWENoise, GGSWNoise, GGSWRotate, GLWEMulConst, GLWEMulPlain, GLWEMulXpMinusOne, GLWENoise, GLWENormalize,
+                    GLWEPacking, GLWERotate, GLWEShift, GLWETensorKeyEncryptSk, GLWETensoring, GLWETrace,
+                };
+                use poulpy_hal::api::VecZnxMulXpMinusOneAssignTmpBytes;
+                let c = ctx(sh.n, 1);
+                let m = &c.module;
+                let mut big: ScratchOwned<BE> = ScratchOwned::alloc(1 << 22);
+                let rank = sh.rank_out;
+                let in_infos = gl(sh.n, sh.b_in, sh.k_in, rank);
+                let out_infos = gl(sh.n, sh.b_res, sh.k_res, rank);
+                let r = match op {
+                    "glwe_trace" | "glwe_trace_assign" => {
+                        let atk_infos = atk_layout(sh, rank);
+                        let keys = auto_keys(c, sh, rank, &m.glwe_trace_galois_elements(), &mut big);
+                        let log_n = sh.n.trailing_zeros() as usize;
+                        let skip = sh.extra as usize % (log_n + 1);
+                        let mut a: GLWE<Vec<u8>> = GLWE::alloc_from_infos(&in_infos);
+                        a.fill_uniform(sh.b_in as usize, &mut src(sh.seed, 6));
+                        if op == "glwe_trace" {
+                            let mut res: GLWE<Vec<u8>> = GLWE::alloc_from_infos(&out_infos);
+                            let declared = m.glwe_trace_tmp_bytes(&out_infos, &in_infos, &atk_infos);
+                            let r = windowed(declared, w, &mut |s| m.glwe_trace(&mut res, skip, &a, &keys, s));
+                            finish(r, declared, vec![res.data().data.clone()])
+                        } else {
+                            let declared = m.glwe_trace_tmp_bytes(&in_infos, &in_infos, &atk_infos);
+                            let r = windowed(declared, w, &mut |s| m.glwe_trace_assign(&mut a, skip, &keys, s));
+                            finish(r, declared, vec![a.data().data.clone()])
+                        }
+                    }
+                    "glwe_pack" => {
+                        let atk_infos = atk_layout(sh, rank);
+                        let keys = auto_keys(c, sh, rank, &m.glwe_pack_galois_elements(), &mut big);
+                        let step = 1 + (sh.extra as usize % 3);
+                        let mut cts: Vec<GLWE<Vec<u8>>> = (0..sh.n as usize)
+                            .step_by(step)
+                            .enumerate()
+                            .map(|(i, _)| {
+                                let mut ct: GLWE<Vec<u8>> = GLWE::alloc_from_infos(&out_infos);
+                                ct.fill_uniform(sh.b_res as usize, &mut src(sh.seed ^ i as u64, 6));
+                                ct
+                            })
+                            .collect();
+                        let mut res: GLWE<Vec<u8>> = GLWE::alloc_from_infos(&out_infos);
+                        let declared = m.glwe_pack_tmp_bytes(&out_infos, &atk_infos);
+                        let r = windowed(declared, w, &mut |s| {
+                            let mut map: std::collections::HashMap<usize, &mut GLWE<Vec<u8>>> = std::collections::HashMap::new();
+                            for (i, ct) in cts.iter_mut().enumerate() {
+                                map.insert(step * i, ct);
+                            }
+                            m.glwe_pack(&mut res, map, 0, &keys, s)
+                        });
+                        finish(r, declared, vec![res.data().data.clone()])
+                    }
+                    "glwe_mul_const" | "glwe_mul_const_assign" => {
+                        let b_size = 1 + (sh.extra as usize % 3);
+                        let mut b: Vec<i64> = vec![0i64; b_size];
+                        {
+                            let mut sx = src(sh.seed, 5);
+                            for x in b.iter_mut() {
+                                *x = ((sx.next_i64() as u64) % (1u64 << sh.b_in)) as i64 - (1i64 << (sh.b_in - 1));
+                            }
+                        }
+                        let cnv_offset = sh.b_in as usize * (1 + ((sh.extra as usize >> 1) % 2)) + (sh.seed as usize % sh.b_in as usize);
+                        let mut a: GLWE<Vec<u8>> = GLWE::alloc_from_infos(&in_infos);
+                        a.fill_uniform(sh.b_in as usize, &mut src(sh.seed, 6));
+                        if op == "glwe_mul_const" {
+                            let mut res: GLWE<Vec<u8>> = GLWE::alloc_from_infos(&out_infos);
+                            let declared = m.glwe_mul_const_tmp_bytes(&out_infos, &in_infos, b_size);
+                            let r = windowed(declared, w, &mut |s| m.glwe_mul_const(cnv_offset, &mut res, &a, &b, s));
+                            finish(r, declared, vec![res.data().data.clone()])
+                        } else {
+                            let declared = m.glwe_mul_const_tmp_bytes(&in_infos, &in_infos, b_size);
+                            let r = windowed(declared, w, &mut |s| m.glwe_mul_const_assign(cnv_offset, &mut a, &b, s));
+                            finish(r, declared, vec![a.data().data.clone()])
+                        }
+                    }
+                    "glwe_mul_plain" | "glwe_mul_plain_assign" => {
+                        let k_b = sh.b_in * (1 + sh.extra % 3) - (sh.extra % sh.b_in.min(5));
+                        let pt_infos = gl(sh.n, sh.b_in, k_b, 0);
+                        let mut pt: GLWEPlaintext<Vec<u8>> = GLWEPlaintext::alloc_from_infos(&pt_infos);
+                        pt.data_mut().fill_uniform(sh.b_in as usize, &mut src(sh.seed, 5));
+                        let cnv_offset = sh.b_in as usize * (1 + ((sh.extra as usize >> 1) % 2)) + (sh.seed as usize % sh.b_in as usize);
+                        let mut a: GLWE<Vec<u8>> = GLWE::alloc_from_infos(&in_infos);
+                        a.fill_uniform(sh.b_in as usize, &mut src(sh.seed, 6));
+                        if op == "glwe_mul_plain" {
+                            let mut res: GLWE<Vec<u8>> = GLWE::alloc_from_infos(&out_infos);
+                            let declared = m.glwe_mul_plain_tmp_bytes(&out_infos, &in_infos, &pt_infos);
+                            let r = windowed(declared, w, &mut |s| {
+                                m.glwe_mul_plain(cnv_offset, &mut res, &a, sh.k_in as usize, &pt, k_b as usize, s)
+                            });
+                            finish(r, declared, vec![res.data().data.clone()])
+                        } else {
+                            let declared = m.glwe_mul_plain_tmp_bytes(&in_infos, &in_infos, &pt_infos);
+                            let r = windowed(declared, w, &mut |s| {
+                                m.glwe_mul_plain_assign(cnv_offset, &mut a, sh.k_in as usize, &pt, k_b as usize, s)
+                            });
+                            finish(r, declared, vec![a.data().data.clone()])
+                        }
+                    }
+                    "glwe_tensor_apply" | "glwe_tensor_apply_add_assign" | "glwe_tensor_square_apply" => {
+                        let size_b = 1 + sh.extra % 3;
+                        let k_b = sh.b_in * size_b - (sh.seed as u32 % sh.b_in.min(5));
+                        let b_infos = gl(sh.n, sh.b_in, k_b, rank);
+                        let cnv_offset = sh.b_in as usize * (1 + ((sh.extra as usize >> 1) % 2)) + (sh.seed as usize % sh.b_in as usize);
+                        let mut a: GLWE<Vec<u8>> = GLWE::alloc_from_infos(&in_infos);
+                        a.fill_uniform(sh.b_in as usize, &mut src(sh.seed, 6));
+                        let mut b: GLWE<Vec<u8>> = GLWE::alloc_from_infos(&b_infos);
+                        b.fill_uniform(sh.b_in as usize, &mut src(sh.seed, 7));
+                        let mut res: GLWETensor<Vec<u8>> = GLWETensor::alloc_from_infos(&out_infos);
+                        match op {
+                            "glwe_tensor_apply" => {
+                                let declared = m.glwe_tensor_apply_tmp_bytes(&res, &in_infos, &b_infos);
+                                let r = windowed(declared, w, &mut |s| {
+                                    m.glwe_tensor_apply(cnv_offset, &mut res, &a, sh.k_in as usize, &b, k_b as usize, s)
+                                });
+                                finish(r, declared, vec![res.data().data.clone()])
+                            }
+                            "glwe_tensor_apply_add_assign" => {
+                                res.fill_uniform(sh.b_res as usize, &mut src(sh.seed, 8));
+                                let declared = m.glwe_tensor_apply_tmp_bytes(&res, &in_infos, &b_infos);
+                                let r = windowed(declared, w, &mut |s| {
+                                    m.glwe_tensor_apply_add_assign(cnv_offset, &mut res, &a, sh.k_in as usize, &b, k_b as usize, s)
+                                });
+                                finish(r, declared, vec![res.data().data.clone()])
+                            }
+                            _ => {
+                                let declared = m.glwe_tensor_square_apply_tmp_bytes(&res, &in_infos);
+                                let r = windowed(declared, w, &mut |s| {
+                                    m.glwe_tensor_square_apply(cnv_offset, &mut res, &a, sh.k_in as usize, s)
+                                });
+                                finish(r, declared, vec![res.data().data.clone()])
+                            }
+                        }
+                    }
+                    "glwe_tensor_relinearize" | "glwe_tensor_key_prepare" | "glwe_tensor_key_encrypt_sk" => {
+                        let tsk_infos = GLWETensorKeyLayout {
+                            n: Degree(sh.n),
+                            base2k: Base2K(sh.b_key),
+                            k: TorusPrecision(sh.k_key),
+                            rank: Rank(rank),
+                            dnum: Dnum(sh.dnum()),
+                            dsize: Dsize(sh.dsize),
+                        };
+                        let mut tsk: GLWETensorKey<Vec<u8>> = GLWETensorKey::alloc_from_infos(&tsk_infos);
+                        if op == "glwe_tensor_key_encrypt_sk" {
+                            let enc = EncryptionLayout::new_from_default_sigma(tsk_infos).unwrap();
+                            let (s0, _) = skp(c, rank, sh.seed);
+                            let declared = m.glwe_tensor_key_encrypt_sk_tmp_bytes(&tsk_infos);
+                            let r = windowed(declared, w, &mut |s| {
+                                m.glwe_tensor_key_encrypt_sk(&mut tsk, &s0, &enc, &mut src(sh.seed, 3), &mut src(sh.seed, 4), s)
+                            });
+                            return Some(finish(r, declared, vec![ser(&tsk)]));
+                        }
+                        tsk.fill_uniform(sh.b_key as usize, &mut src(sh.seed, 2));
+                        let mut tp = m.alloc_tensor_key_prepared_from_infos(&tsk_infos);
+                        let mut a: GLWETensor<Vec<u8>> = GLWETensor::alloc_from_infos(&in_infos);
+                        a.fill_uniform(sh.b_in as usize, &mut src(sh.seed, 6));
+                        let mut res: GLWE<Vec<u8>> = GLWE::alloc_from_infos(&out_infos);
+                        use poulpy_core::layouts::LWEInfos;
+                        if op == "glwe_tensor_key_prepare" {
+                            let declared = m.prepare_tensor_key_tmp_bytes(&tsk_infos);
+                            let r = windowed(declared, w, &mut |s| m.prepare_tensor_key(&mut tp, &tsk, s));
+                            if r.0.is_ok() {
+                                let sz = tp.size();
+                                m.glwe_tensor_relinearize(&mut res, &a, &tp, sz, big.borrow());
+                            }
+                            return Some(finish(r, declared, vec![res.data().data.clone()]));
+                        }
+                        m.prepare_tensor_key(&mut tp, &tsk, big.borrow());
+                        let sz = tp.size();
+                        let declared = m.glwe_tensor_relinearize_tmp_bytes(&out_infos, &a, &tsk_infos);
+                        let r = windowed(declared, w, &mut |s| m.glwe_tensor_relinearize(&mut res, &a, &tp, sz, s));
+                        finish(r, declared, vec![res.data().data.clone()])
+                    }
+                    "glwe_rotate_assign" | "glwe_mul_xp_minus_one_assign" | "glwe_normalize_assign" | "glwe_rsh" | "glwe_lsh_assign" => {
+                        let mut a: GLWE<Vec<u8>> = GLWE::alloc_from_infos(&in_infos);
+                        a.fill_uniform(sh.b_in as usize, &mut src(sh.seed, 6));
+                        let p = (sh.seed % (4 * sh.n as u64)) as i64 - 2 * sh.n as i64;
+                        let kbits = (sh.seed >> 8) as usize % (sh.k_in as usize + sh.b_in as usize);
+                        let (r, declared) = match op {
+                            "glwe_rotate_assign" => {
+                                let d = m.glwe_rotate_tmp_bytes();
+                                (windowed(d, w, &mut |s| m.glwe_rotate_assign(p, &mut a, s)), d)
+                            }
+                            "glwe_mul_xp_minus_one_assign" => {
+                                let d = m.vec_znx_mul_xp_minus_one_assign_tmp_bytes();
+                                (windowed(d, w, &mut |s| m.glwe_mul_xp_minus_one_assign(p, &mut a, s)), d)
+                            }
+                            "glwe_normalize_assign" => {
+                                // un-normalised limbs: full 64-bit range would overflow the carry; use 2 extra bits
+                                let d = m.glwe_normalize_tmp_bytes();
+                                (windowed(d, w, &mut |s| m.glwe_normalize_assign(&mut a, s)), d)
+                            }
+                            "glwe_rsh" => {
+                                let d = m.glwe_shift_tmp_bytes();
+                                (windowed(d, w, &mut |s| m.glwe_rsh(kbits, &mut a, s)), d)
+                            }
+                            _ => {
+                                let d = m.glwe_shift_tmp_bytes();
+                                (windowed(d, w, &mut |s| m.glwe_lsh_assign(&mut a, kbits, s)), d)
+                            }
+                        };
+                        finish(r, declared, vec![a.data().data.clone()])
+                    }
+                    "glwe_lsh" | "glwe_lsh_add" | "glwe_lsh_sub" => {
+                        // same radix on both sides
+                        let res_infos = gl(sh.n, sh.b_in, sh.k_res, rank);
+                        let mut a: GLWE<Vec<u8>> = GLWE::alloc_from_infos(&in_infos);
+                        a.fill_uniform(sh.b_in as usize, &mut src(sh.seed, 6));
+                        let mut res: GLWE<Vec<u8>> = GLWE::alloc_from_infos(&res_infos);
+                        res.fill_uniform(sh.b_in as usize, &mut src(sh.seed, 7));
+                        let kbits = (sh.seed >> 8) as usize % (sh.k_in as usize + sh.b_in as usize);
+                        let declared = m.glwe_shift_tmp_bytes();
+                        let r = match op {
+                            "glwe_lsh" => windowed(declared, w, &mut |s| m.glwe_lsh(&mut res, &a, kbits, s)),
+                            "glwe_lsh_add" => windowed(declared, w, &mut |s| m.glwe_lsh_add(&mut res, &a, kbits, s)),
+                            _ => windowed(declared, w, &mut |s| m.glwe_lsh_sub(&mut res, &a, kbits, s)),
+                        };
+                        finish(r, declared, vec![res.data().data.clone()])
+                    }
+                    "ggsw_rotate_assign" => {
+                        let (k_a, _size_a, dnum_a) = gadget_ct(sh.b_in, sh.k_in, sh.extra);
+                        let a_infos = GGSWLayout {
+                            n: Degree(sh.n),
+                            base2k: Base2K(sh.b_in),
+                            k: TorusPrecision(k_a),
+                            rank: Rank(rank),
+                            dnum: Dnum(dnum_a),
+                            dsize: Dsize(1),
+                        };
+                        let mut a: GGSW<Vec<u8>> = GGSW::alloc_from_infos(&a_infos);
+                        a.fill_uniform(sh.b_in as usize, &mut src(sh.seed, 6));
+                        let p = (sh.seed % (4 * sh.n as u64)) as i64 - 2 * sh.n as i64;
+                        let declared = m.ggsw_rotate_tmp_bytes();
+                        let r = windowed(declared, w, &mut |s| m.ggsw_rotate_assign(p, &mut a, s));
+                        finish(r, declared, vec![ser(&a)])
+                    }
+                    "glwe_noise" => {
+                        let (_s, sp) = skp(c, rank, sh.seed);
+                        let mut ct: GLWE<Vec<u8>> = GLWE::alloc_from_infos(&out_infos);
+                        ct.fill_uniform(sh.b_res as usize, &mut src(sh.seed, 6));
+                        let mut pt: GLWEPlaintext<Vec<u8>> = GLWEPlaintext::alloc_from_infos(&out_infos);
+                        pt.data_mut().fill_uniform(sh.b_res as usize, &mut src(sh.seed, 5));
+                        let declared = m.glwe_noise_tmp_bytes(&out_infos);
+                        let mut out = Vec::new();
+                        let r = windowed(declared, w, &mut |s| {
+                            let st = m.glwe_noise(&ct, &pt, &sp, s);
+                            out = [st.std().to_le_bytes(), st.max().to_le_bytes()].concat();
+                        });
+                        finish(r, declared, vec![out])
+                    }
+                    "gglwe_noise" | "ggsw_noise" => {
+                        let (_s, sp) = skp(c, rank, sh.seed);
+                        let mut pt: poulpy_hal::layouts::ScalarZnx<Vec<u8>> =
+                            poulpy_hal::layouts::ScalarZnx::alloc(sh.n as usize, sh.rank_in as usize);
+                        pt.fill_uniform(3, &mut src(sh.seed, 2));
+                        let mut out = Vec::new();
+                        if op == "gglwe_noise" {
+                            let infos = GGLWELayout {
+                                n: Degree(sh.n),
+                                base2k: Base2K(sh.b_key),
+                                k: TorusPrecision(sh.k_key),
+                                rank_in: Rank(sh.rank_in),
+                                rank_out: Rank(rank),
+                                dnum: Dnum(sh.dnum()),
+                                dsize: Dsize(sh.dsize),
+                            };
+                            let mut ct: GGLWE<Vec<u8>> = GGLWE::alloc_from_infos(&infos);
+                            ct.fill_uniform(sh.b_key as usize, &mut src(sh.seed, 6));
+                            let row = sh.extra as usize % sh.dnum() as usize;
+                            let col = (sh.extra as usize >> 2) % sh.rank_in as usize;
+                            let declared = m.gglwe_noise_tmp_bytes(&infos);
+                            let r = windowed(declared, w, &mut |s| {
+                                let st = m.gglwe_noise(&ct, row, col, &pt, &sp, s);
+                                out = [st.std().to_le_bytes(), st.max().to_le_bytes()].concat();
+                            });
+                            finish(r, declared, vec![out])
+                        } else {
+                            let infos = ggsw_key_layout(sh, rank);
+                            let mut ct: GGSW<Vec<u8>> = GGSW::alloc_from_infos(&infos);
+                            ct.fill_uniform(sh.b_key as usize, &mut src(sh.seed, 6));
+                            let row = sh.extra as usize % sh.dnum() as usize;
+                            let col = (sh.extra as usize >> 2) % (rank as usize + 1);
+                            let declared = m.ggsw_noise_tmp_bytes(&infos);
+                            let r = windowed(declared, w, &mut |s| {
+                                let st = m.ggsw_noise(&ct, row, col, &pt, &sp, s);
+                                out = [st.std().to_le_bytes(), st.max().to_le_bytes()].concat();
+                            });
+                            finish(r, declared, vec![out])
+                        }
+                    }
+                    _ => return core_op3_d(op, sh, w),
+                };
+                Some(r)
+            }
+
+            /// Seed-compressed encryption, public-key encryption, tensor secrets.
+            fn core_op3_d(op: &str, sh: &Shape, w: &Window) -> Option<RunResult> {
+                use poulpy_core::api::{
+                    GGLWECompressedEncryptSk, GGLWEToGGSWKeyCompressedEncryptSk, GGSWCompressedEncryptSk, GLWEAutomorphismKeyCompressedEncryptSk,
+                    GLWECompressedEncryptSk, GLWEEncryptPk, GLWEEncryptSk, GLWEPublicKeyGenerate, GLWESwitchingKeyCompressedEncryptSk,
+                    GLWETensorDecrypt, GLWETensorKeyCompressedEncryptSk,
+                };
+                use poulpy_core::layouts::{
+                    GGLWECompressed, GGLWEToGGSWKeyCompressed, GGSWCompressed, GLWEAutomorphismKeyCompressed, GLWECompressed, GLWEPublicKey,
+                    GLWEPublicKeyPreparedFactory, GLWESecretTensor, GLWESecretTensorFactory, GLWESecretTensorPreparedFactory,
+                    GLWESwitchingKeyCompressed, GLWETensor, GLWETensorKeyCompressed, GLWETensorKeyLayout,
+                };
+                let c = ctx(sh.n, 1);
+                let m = &c.module;
+                let rank = sh.rank_out;
+                let out_infos = gl(sh.n, sh.b_res, sh.k_res, rank);
+                let mut seed_xa = [7u8; 32];
+                seed_xa[..8].copy_from_slice(&sh.seed.to_le_bytes());
+                let r = match op {
+                    "glwe_compressed_encrypt_sk" => {
+                        let enc = EncryptionLayout::new_from_default_sigma(out_infos).unwrap();
+                        let (_s, sp) = skp(c, rank, sh.seed);
+                        let mut pt: GLWEPlaintext<Vec<u8>> = GLWEPlaintext::alloc_from_infos(&out_infos);
+                        pt.data_mut().fill_uniform(sh.b_res as usize, &mut src(sh.seed, 2));
+                        let mut ct: GLWECompressed<Vec<u8>> = GLWECompressed::alloc_from_infos(&out_infos);
+                        let declared = m.glwe_compressed_encrypt_sk_tmp_bytes(&out_infos);
+                        let r = windowed(declared, w, &mut |s| {
+                            m.glwe_compressed_encrypt_sk(&mut ct, &pt, &sp, seed_xa, &enc, &mut src(sh.seed, 3), s)
+                        });
+                        finish(r, declared, vec![ser(&ct)])
+                    }
+                    "gglwe_compressed_encrypt_sk" => {
+                        let infos = GGLWELayout {
+                            n: Degree(sh.n),
+                            base2k: Base2K(sh.b_key),
+                            k: TorusPrecision(sh.k_key),
+                            rank_in: Rank(sh.rank_in),
+                            rank_out: Rank(rank),
+                            dnum: Dnum(sh.dnum()),
+                            dsize: Dsize(sh.dsize),
+                        };
+                        let enc = EncryptionLayout::new_from_default_sigma(infos).unwrap();
+                        let (_s, sp) = skp(c, rank, sh.seed);
+                        let mut pt: poulpy_hal::layouts::ScalarZnx<Vec<u8>> =
+                            poulpy_hal::layouts::ScalarZnx::alloc(sh.n as usize, sh.rank_in as usize);
+                        pt.fill_uniform(3, &mut src(sh.seed, 2));
+                        let mut ct: GGLWECompressed<Vec<u8>> = GGLWECompressed::alloc_from_infos(&infos);
+                        let declared = m.gglwe_compressed_encrypt_sk_tmp_bytes(&infos);
+                        let r = windowed(declared, w, &mut |s| {
+                            m.gglwe_compressed_encrypt_sk(&mut ct, &pt, &sp, seed_xa, &enc, &mut src(sh.seed, 3), s)
+                        });
+                        finish(r, declared, vec![ser(&ct)])
+                    }
+                    "ggsw_compressed_encrypt_sk" => {
+                        let infos = ggsw_key_layout(sh, rank);
+                        let enc = EncryptionLayout::new_from_default_sigma(infos).unwrap();
+                        let (_s, sp) = skp(c, rank, sh.seed);
+                        let mut pt: poulpy_hal::layouts::ScalarZnx<Vec<u8>> = poulpy_hal::layouts::ScalarZnx::alloc(sh.n as usize, 1);
+                        pt.fill_uniform(3, &mut src(sh.seed, 2));
+                        let mut ct: GGSWCompressed<Vec<u8>> = GGSWCompressed::alloc_from_infos(&infos);
+                        let declared = m.ggsw_compressed_encrypt_sk_tmp_bytes(&infos);
+                        let r = windowed(declared, w, &mut |s| {
+                            m.ggsw_compressed_encrypt_sk(&mut ct, &pt, &sp, seed_xa, &enc, &mut src(sh.seed, 3), s)
+                        });
+                        finish(r, declared, vec![ser(&ct)])
+                    }
+                    "glwe_switching_key_compressed_encrypt_sk" => {
+                        let infos = ksk_layout(sh, sh.rank_in, rank);
+                        let enc = EncryptionLayout::new_from_default_sigma(infos).unwrap();
+                        let (s_in, _) = skp(c, sh.rank_in, sh.seed);
+                        let (s_out, _) = skp(c, rank, sh.seed ^ 5);
+                        let mut key: GLWESwitchingKeyCompressed<Vec<u8>> = GLWESwitchingKeyCompressed::alloc_from_infos(&infos);
+                        let declared = m.glwe_switching_key_compressed_encrypt_sk_tmp_bytes(&infos);
+                        let r = windowed(declared, w, &mut |s| {
+                            m.glwe_switching_key_compressed_encrypt_sk(&mut key, &s_in, &s_out, seed_xa, &enc, &mut src(sh.seed, 3), s)
+                        });
+                        finish(r, declared, vec![ser(&key)])
+                    }
+                    "glwe_automorphism_key_compressed_encrypt_sk" => {
+                        let infos = atk_layout(sh, rank);
+                        let enc = EncryptionLayout::new_from_default_sigma(infos).unwrap();
+                        let (s0, _) = skp(c, rank, sh.seed);
+                        let p: i64 = [5i64, -1, 3, 25][(sh.extra % 4) as usize];
+                        let mut key: GLWEAutomorphismKeyCompressed<Vec<u8>> = GLWEAutomorphismKeyCompressed::alloc_from_infos(&infos);
+                        let declared = m.glwe_automorphism_key_compressed_encrypt_sk_tmp_bytes(&infos);
+                        let r = windowed(declared, w, &mut |s| {
+                            m.glwe_automorphism_key_compressed_encrypt_sk(&mut key, p, &s0, seed_xa, &enc, &mut src(sh.seed, 3), s)
+                        });
+                        finish(r, declared, vec![ser(&key)])
+                    }
+                    "glwe_tensor_key_compressed_encrypt_sk" => {
+                        let infos = GLWETensorKeyLayout {
+                            n: Degree(sh.n),
+                            base2k: Base2K(sh.b_key),
+                            k: TorusPrecision(sh.k_key),
+                            rank: Rank(rank),
+                            dnum: Dnum(sh.dnum()),
+                            dsize: Dsize(sh.dsize),
+                        };
+                        let enc = EncryptionLayout::new_from_default_sigma(infos).unwrap();
+                        let (s0, _) = skp(c, rank, sh.seed);
+                        let mut key: GLWETensorKeyCompressed<Vec<u8>> = GLWETensorKeyCompressed::alloc_from_infos(&infos);
+                        let declared = m.glwe_tensor_key_compressed_encrypt_sk_tmp_bytes(&infos);
+                        let r = windowed(declared, w, &mut |s| {
+                            m.glwe_tensor_key_compressed_encrypt_sk(&mut key, &s0, seed_xa, &enc, &mut src(sh.seed, 3), s)
+                        });
+                        finish(r, declared, vec![ser(&key)])
+                    }
+                    "gglwe_to_ggsw_key_compressed_encrypt_sk" => {
+                        let infos = tsk_layout(sh, rank);
+                        let enc = EncryptionLayout::new_from_default_sigma(infos).unwrap();
+                        let (s0, _) = skp(c, rank, sh.seed);
+                        let mut key: GGLWEToGGSWKeyCompressed<Vec<u8>> = GGLWEToGGSWKeyCompressed::alloc_from_infos(&infos);
+                        let declared = GGLWEToGGSWKeyCompressedEncryptSk::gglwe_to_ggsw_key_encrypt_sk_tmp_bytes(m, &infos);
+                        let r = windowed(declared, w, &mut |s| {
+                            GGLWEToGGSWKeyCompressedEncryptSk::gglwe_to_ggsw_key_encrypt_sk(
+                                m,
+                                &mut key,
+                                &s0,
+                                seed_xa,
+                                &enc,
+                                &mut src(sh.seed, 3),
+                                s,
+                            )
+                        });
+                        finish(r, declared, vec![ser(&key)])
+                    }
+                    "glwe_encrypt_pk" | "glwe_encrypt_zero_pk" | "glwe_encrypt_zero_sk" => {
+                        let enc = EncryptionLayout::new_from_default_sigma(out_infos).unwrap();
+                        let (_s, sp) = skp(c, rank, sh.seed);
+                        let mut ct: GLWE<Vec<u8>> = GLWE::alloc_from_infos(&out_infos);
+                        if op == "glwe_encrypt_zero_sk" {
+                            let declared = m.glwe_encrypt_sk_tmp_bytes(&out_infos);
+                            let r = windowed(declared, w, &mut |s| {
+                                m.glwe_encrypt_zero_sk(&mut ct, &sp, &enc, &mut src(sh.seed, 3), &mut src(sh.seed, 4), s)
+                            });
+                            return Some(finish(r, declared, vec![ct.data().data.clone()]));
+                        }
+                        let mut pk: GLWEPublicKey<Vec<u8>> = GLWEPublicKey::alloc_from_infos(&out_infos);
+                        m.glwe_public_key_generate(&mut pk, &sp, &enc, &mut src(sh.seed, 8), &mut src(sh.seed, 9));
+                        let mut pkp = m.glwe_public_key_prepared_alloc_from_infos(&out_infos);
+                        m.glwe_public_key_prepare(&mut pkp, &pk);
+                        let mut pt: GLWEPlaintext<Vec<u8>> = GLWEPlaintext::alloc_from_infos(&out_infos);
+                        pt.data_mut().fill_uniform(sh.b_res as usize, &mut src(sh.seed, 2));
+                        let declared = m.glwe_encrypt_pk_tmp_bytes(&out_infos);
+                        let r = if op == "glwe_encrypt_pk" {
+                            windowed(declared, w, &mut |s| {
+                                m.glwe_encrypt_pk(&mut ct, &pt, &pkp, &enc, &mut src(sh.seed, 3), &mut src(sh.seed, 4), s)
+                            })
+                        } else {
+                            windowed(declared, w, &mut |s| {
+                                m.glwe_encrypt_zero_pk(&mut ct, &pkp, &enc, &mut src(sh.seed, 3), &mut src(sh.seed, 4), s)
+                            })
+                        };
+                        finish(r, declared, vec![ct.data().data.clone()])
+                    }
+                    "glwe_secret_tensor_prepare" | "glwe_tensor_decrypt" => {
+                        let mut big: ScratchOwned<BE> = ScratchOwned::alloc(1 << 22);
+                        let (s0, sp) = skp(c, rank, sh.seed);
+                        let mut st: GLWESecretTensor<Vec<u8>> = GLWESecretTensor::alloc(Degree(sh.n), Rank(rank));
+                        if op == "glwe_secret_tensor_prepare" {
+                            let declared = m.glwe_secret_tensor_prepare_tmp_bytes(Rank(rank));
+                            let r = windowed(declared, w, &mut |s| m.glwe_secret_tensor_prepare(&mut st, &s0, s));
+                            let mut bytes: Vec<u8> = Vec::new();
+                            for i in 0..rank as usize {
+                                for j in i..rank as usize {
+                                    let z = st.at(i, j);
+                                    let d: &[u8] = z.data();
+                                    bytes.extend_from_slice(d);
+                                }
+                            }
+                            return Some(finish(r, declared, vec![bytes]));
+                        }
+                        m.glwe_secret_tensor_prepare(&mut st, &s0, big.borrow());
+                        let mut stp = m.glwe_secret_tensor_prepared_alloc(Rank(rank));
+                        m.glwe_secret_tensor_prepared_prepare(&mut stp, &st);
+                        let mut ct: GLWETensor<Vec<u8>> = GLWETensor::alloc_from_infos(&out_infos);
+                        ct.fill_uniform(sh.b_res as usize, &mut src(sh.seed, 6));
+                        let mut pt: GLWEPlaintext<Vec<u8>> = GLWEPlaintext::alloc_from_infos(&out_infos);
+                        let declared = m.glwe_tensor_decrypt_tmp_bytes(&out_infos);
+                        let r = windowed(declared, w, &mut |s| m.glwe_tensor_decrypt(&ct, &mut pt, &sp, &stp, s));
+                        finish(r, declared, vec![pt.data().data.clone()])
+                    }
+                    _ => return core_op3_e(op, sh, w),
+                };
+                Some(r)
+            }
+
+            /// poulpy_hal::api level: vector normalisation / shifts / automorphisms, vmp, convolutions.
+            fn core_op3_e(op: &str, sh: &Shape, w: &Window) -> Option<RunResult> {
+                use poulpy_hal::api::*;
+                use poulpy_hal::layouts::{MatZnx, VecZnx};
+                if !op.starts_with("hal_") {
+                    return core_op3_f(op, sh, w);
+                }
+                let c = ctx(sh.n, 1);
+                let m = &c.module;
+                let mut big: ScratchOwned<BE> = ScratchOwned::alloc(1 << 22);
+                let n = sh.n as usize;
+                let size_in = sh.k_in.div_ceil(sh.b_in) as usize;
+                let size_res = sh.k_res.div_ceil(sh.b_res) as usize;
+                let cols = sh.rank_out as usize + 1;
+                let col = sh.extra as usize % cols;
+                let mut a: VecZnx<Vec<u8>> = VecZnx::alloc(n, cols, size_in);
+                a.fill_uniform(sh.b_in as usize, &mut src(sh.seed, 6));
+                let p = (sh.seed % (4 * sh.n as u64)) as i64 - 2 * sh.n as i64;
+                let kbits = (sh.seed >> 8) as usize % (sh.k_in as usize + sh.b_in as usize);
+                macro_rules! bytes_of {
+                    ($x:expr) => {{
+                        let d: &[u8] = $x.data().as_ref();
+                        d.to_vec()
+                    }};
+                }
+                let r = match op {
+                    "hal_vec_znx_normalize" => {
+                        let mut res: VecZnx<Vec<u8>> = VecZnx::alloc(n, cols, size_res);
+                        res.fill_uniform(sh.b_res as usize, &mut src(sh.seed, 7));
+                        let off = (sh.seed >> 16) as i64 % (2 * sh.b_res as i64 + 1) - sh.b_res as i64;
+                        let declared = m.vec_znx_normalize_tmp_bytes();
+                        let r = windowed(declared, w, &mut |s| {
+                            m.vec_znx_normalize(&mut res, sh.b_res as usize, off, col, &a, sh.b_in as usize, col, s)
+                        });
+                        finish(r, declared, vec![res.data.clone()])
+                    }
+                    "hal_vec_znx_big_normalize" | "hal_vec_znx_big_automorphism_assign" => {
+                        let mut ab = m.vec_znx_big_alloc(cols, size_in);
+                        for i in 0..cols {
+                            m.vec_znx_big_from_small(&mut ab, i, &a, i);
+                        }
+                        if op == "hal_vec_znx_big_normalize" {
+                            let mut res: VecZnx<Vec<u8>> = VecZnx::alloc(n, cols, size_res);
+                            res.fill_uniform(sh.b_res as usize, &mut src(sh.seed, 7));
+                            let off = (sh.seed >> 16) as i64 % (2 * sh.b_res as i64 + 1) - sh.b_res as i64;
+                            let declared = m.vec_znx_big_normalize_tmp_bytes();
+                            let r = windowed(declared, w, &mut |s| {
+                                m.vec_znx_big_normalize(&mut res, sh.b_res as usize, off, col, &ab, sh.b_in as usize, col, s)
+                            });
+                            finish(r, declared, vec![res.data.clone()])
+                        } else {
+                            let declared = m.vec_znx_big_automorphism_assign_tmp_bytes();
+                            let r = windowed(declared, w, &mut |s| m.vec_znx_big_automorphism_assign(2 * p + 1, &mut ab, col, s));
+                            finish(r, declared, vec![bytes_of!(ab)])
+                        }
+                    }
+                    "hal_vec_znx_automorphism_assign" => {
+                        let declared = m.vec_znx_automorphism_assign_tmp_bytes();
+                        let r = windowed(declared, w, &mut |s| m.vec_znx_automorphism_assign(2 * p + 1, &mut a, col, s));
+                        finish(r, declared, vec![a.data.clone()])
+                    }
+                    "hal_vec_znx_rsh" | "hal_vec_znx_rsh_add_into" | "hal_vec_znx_rsh_sub" | "hal_vec_znx_lsh" | "hal_vec_znx_lsh_add_into"
+                    | "hal_vec_znx_lsh_sub" => {
+                        let mut res: VecZnx<Vec<u8>> = VecZnx::alloc(n, cols, size_res);
+                        res.fill_uniform(sh.b_in as usize, &mut src(sh.seed, 7));
+                        let b = sh.b_in as usize;
+                        let declared = if op.contains("rsh") { m.vec_znx_rsh_tmp_bytes() } else { m.vec_znx_lsh_tmp_bytes() };
+                        let r = match op {
+                            "hal_vec_znx_rsh" => windowed(declared, w, &mut |s| m.vec_znx_rsh(b, kbits, &mut res, col, &a, col, s)),
+                            "hal_vec_znx_rsh_add_into" => {
+                                windowed(declared, w, &mut |s| m.vec_znx_rsh_add_into(b, kbits, &mut res, col, &a, col, s))
+                            }
+                            "hal_vec_znx_rsh_sub" => windowed(declared, w, &mut |s| m.vec_znx_rsh_sub(b, kbits, &mut res, col, &a, col, s)),
+                            "hal_vec_znx_lsh" => windowed(declared, w, &mut |s| m.vec_znx_lsh(b, kbits, &mut res, col, &a, col, s)),
+                            "hal_vec_znx_lsh_add_into" => {
+                                windowed(declared, w, &mut |s| m.vec_znx_lsh_add_into(b, kbits, &mut res, col, &a, col, s))
+                            }
+                            _ => windowed(declared, w, &mut |s| m.vec_znx_lsh_sub(b, kbits, &mut res, col, &a, col, s)),
+                        };
+                        finish(r, declared, vec![res.data.clone()])
+                    }
+                    "hal_vec_znx_idft_apply" => {
+                        let mut ad = m.vec_znx_dft_alloc(cols, size_in);
+                        for i in 0..cols {
+                            m.vec_znx_dft_apply(1, 0, &mut ad, i, &a, i);
+                        }
+                        let mut res = m.vec_znx_big_alloc(cols, size_res);
+                        let declared = m.vec_znx_idft_apply_tmp_bytes();
+                        let r = windowed(declared, w, &mut |s| m.vec_znx_idft_apply(&mut res, col, &ad, col, s));
+                        finish(r, declared, vec![bytes_of!(res)])
+                    }
+                    "hal_vmp_prepare" | "hal_vmp_apply_dft_to_dft" | "hal_vmp_apply_dft" => {
+                        let rows = sh.dnum() as usize;
+                        let cols_in = sh.rank_in as usize;
+                        let cols_out = sh.rank_out as usize + 1;
+                        let size_key = sh.k_key.div_ceil(sh.b_key) as usize;
+                        let mut mat: MatZnx<Vec<u8>> = MatZnx::alloc(n, rows, cols_in, cols_out, size_key);
+                        mat.fill_uniform(sh.b_key as usize, &mut src(sh.seed, 2));
+                        let mut pm = m.vmp_pmat_alloc(rows, cols_in, cols_out, size_key);
+                        let mut x: VecZnx<Vec<u8>> = VecZnx::alloc(n, cols_in, size_in);
+                        x.fill_uniform(sh.b_in as usize, &mut src(sh.seed, 6));
+                        let mut xd = m.vec_znx_dft_alloc(cols_in, size_in);
+                        for i in 0..cols_in {
+                            m.vec_znx_dft_apply(1, 0, &mut xd, i, &x, i);
+                        }
+                        let mut res = m.vec_znx_dft_alloc(cols_out, size_res);
+                        if op == "hal_vmp_prepare" {
+                            let declared = m.vmp_prepare_tmp_bytes(rows, cols_in, cols_out, size_key);
+                            let r = windowed(declared, w, &mut |s| m.vmp_prepare(&mut pm, &mat, s));
+                            if r.0.is_ok() {
+                                m.vmp_apply_dft_to_dft(&mut res, &xd, &pm, 0, big.borrow());
+                            }
+                            return Some(finish(r, declared, vec![bytes_of!(res)]));
+                        }
+                        m.vmp_prepare(&mut pm, &mat, big.borrow());
+                        if op == "hal_vmp_apply_dft_to_dft" {
+                            let limb_offset = (sh.extra as usize >> 1) % 2;
+                            let declared = m.vmp_apply_dft_to_dft_tmp_bytes(size_res, size_in, rows, cols_in, cols_out, size_key);
+                            let r = windowed(declared, w, &mut |s| m.vmp_apply_dft_to_dft(&mut res, &xd, &pm, limb_offset, s));
+                            finish(r, declared, vec![bytes_of!(res)])
+                        } else {
+                            let declared = m.vmp_apply_dft_tmp_bytes(size_res, size_in, rows, cols_in, cols_out, size_key);
+                            let r = windowed(declared, w, &mut |s| m.vmp_apply_dft(&mut res, &x, &pm, s));
+                            finish(r, declared, vec![bytes_of!(res)])
+                        }
+                    }
+                    "hal_cnv_prepare_left" | "hal_cnv_prepare_right" | "hal_cnv_prepare_self" | "hal_cnv_apply_dft"
+                    | "hal_cnv_pairwise_apply_dft" => {
+                        let size_b = 1 + (sh.extra as usize % 3);
+                        let mut b: VecZnx<Vec<u8>> = VecZnx::alloc(n, cols, size_b);
+                        b.fill_uniform(sh.b_in as usize, &mut src(sh.seed, 7));
+                        let mask: i64 = -1i64 << (sh.seed % sh.b_in as u64);
+                        let mut ap = m.cnv_pvec_left_alloc(cols, size_in);
+                        let mut bp = m.cnv_pvec_right_alloc(cols, size_b);
+                        match op {
+                            "hal_cnv_prepare_left" => {
+                                let declared = m.cnv_prepare_left_tmp_bytes(size_in, size_in);
+                                let r = windowed(declared, w, &mut |s| m.cnv_prepare_left(&mut ap, &a, mask, s));
+                                return Some(finish(r, declared, vec![bytes_of!(ap)]));
+                            }
+                            "hal_cnv_prepare_right" => {
+                                let declared = m.cnv_prepare_right_tmp_bytes(size_b, size_b);
+                                let r = windowed(declared, w, &mut |s| m.cnv_prepare_right(&mut bp, &b, mask, s));
+                                return Some(finish(r, declared, vec![bytes_of!(bp)]));
+                            }
+                            "hal_cnv_prepare_self" => {
+                                let mut bp2 = m.cnv_pvec_right_alloc(cols, size_in);
+                                let declared = m.cnv_prepare_self_tmp_bytes(size_in, size_in);
+                                let r = windowed(declared, w, &mut |s| m.cnv_prepare_self(&mut ap, &mut bp2, &a, mask, s));
+                                return Some(finish(r, declared, vec![bytes_of!(ap), bytes_of!(bp2)]));
+                            }
+                            _ => {}
+                        }
+                        m.cnv_prepare_left(&mut ap, &a, mask, big.borrow());
+                        m.cnv_prepare_right(&mut bp, &b, mask, big.borrow());
+                        let cnv_offset = (sh.extra as usize >> 2) % 2;
+                        // result length: anything from 1 limb to the full product
+                        let full = size_in + size_b - cnv_offset;
+                        let res_size = 1 + (sh.seed as usize >> 20) % full;
+                        let mut res = m.vec_znx_dft_alloc(1, res_size);
+                        if op == "hal_cnv_apply_dft" {
+                            let declared = m.cnv_apply_dft_tmp_bytes(cnv_offset, res_size, size_in, size_b);
+                            let r = windowed(declared, w, &mut |s| m.cnv_apply_dft(cnv_offset, &mut res, 0, &ap, col, &bp, col, s));
+                            finish(r, declared, vec![bytes_of!(res)])
+                        } else {
+                            let j = (col + 1) % cols;
+                            let declared = m.cnv_pairwise_apply_dft_tmp_bytes(cnv_offset, res_size, size_in, size_b);
+                            let r = windowed(declared, w, &mut |s| {
+                                m.cnv_pairwise_apply_dft(cnv_offset, &mut res, 0, &ap, &bp, col.min(j), col.max(j), s)
+                            });
+                            finish(r, declared, vec![bytes_of!(res)])
+                        }
+                    }
+                    "hal_cnv_by_const_apply" => {
+                        let size_b = 1 + (sh.extra as usize % 3);
+                        let mut b: Vec<i64> = vec![0i64; size_b];
+                        {
+                            let mut sx = src(sh.seed, 5);
+                            for x in b.iter_mut() {
+                                *x = ((sx.next_i64() as u64) % (1u64 << sh.b_in)) as i64 - (1i64 << (sh.b_in - 1));
+                            }
+                        }
+                        let cnv_offset = (sh.extra as usize >> 2) % 2;
+                        let full = size_in + size_b - cnv_offset;
+                        let res_size = 1 + (sh.seed as usize >> 20) % full;
+                        let mut res = m.vec_znx_big_alloc(1, res_size);
+                        let declared = m.cnv_by_const_apply_tmp_bytes(cnv_offset, res_size, size_in, size_b);
+                        let r = windowed(declared, w, &mut |s| m.cnv_by_const_apply(cnv_offset, &mut res, 0, &a, col, &b, s));
+                        finish(r, declared, vec![bytes_of!(res)])
+                    }
+                    _ => return core_op3_f(op, sh, w),
+                };
+                Some(r)
+            }
+
+            /// poulpy-bin-fhe: selector products, blind rotation, encrypted words.
+            fn core_op3_f(op: &str, sh: &Shape, w: &Window) -> Option<RunResult> {
+                use poulpy_bin_fhe::bdd_arithmetic::{Cmux, Cswap};
+                use poulpy_bin_fhe::blind_rotation::{
+                    BlindRotationExecute, BlindRotationKey, BlindRotationKeyEncryptSk, BlindRotationKeyPrepared,
+                    BlindRotationKeyPreparedFactory, LookUpTableLayout, LookupTable,
+                };
+                use poulpy_core::layouts::{LWE, LWELayout};
+                let c = ctx(sh.n, 1);
+                let m = &c.module;
+                let mut big: ScratchOwned<BE> = ScratchOwned::alloc(1 << 22);
+                let rank = sh.rank_out;
+                let r = match op {
+                    "cmux_assign" | "cmux_assign_neg" | "cswap" => {
+                        let in_infos = gl(sh.n, sh.b_in, sh.k_in, rank);
+                        let ggsw_infos = ggsw_key_layout(sh, rank);
+                        let mut ggsw: GGSW<Vec<u8>> = GGSW::alloc_from_infos(&ggsw_infos);
+                        ggsw.fill_uniform(sh.b_key as usize, &mut src(sh.seed, 2));
+                        let mut gp = m.ggsw_prepared_alloc_from_infos(&ggsw);
+                        m.ggsw_prepare(&mut gp, &ggsw, big.borrow());
+                        let mut a: GLWE<Vec<u8>> = GLWE::alloc_from_infos(&in_infos);
+                        a.fill_uniform(sh.b_in as usize, &mut src(sh.seed, 6));
+                        if op == "cswap" {
+                            // both sides share the radix; precisions may differ
+                            let b_infos = gl(sh.n, sh.b_in, sh.k_res, rank);
+                            let mut b: GLWE<Vec<u8>> = GLWE::alloc_from_infos(&b_infos);
+                            b.fill_uniform(sh.b_in as usize, &mut src(sh.seed, 7));
+                            let declared = m.cswap_tmp_bytes(&in_infos, &b_infos, &ggsw_infos);
+                            let r = windowed(declared, w, &mut |s| m.cswap(&mut a, &mut b, &gp, s));
+                            finish(r, declared, vec![a.data().data.clone(), b.data().data.clone()])
+                        } else {
+                            let mut res: GLWE<Vec<u8>> = GLWE::alloc_from_infos(&in_infos);
+                            res.fill_uniform(sh.b_in as usize, &mut src(sh.seed, 7));
+                            let declared = m.cmux_tmp_bytes(&in_infos, &in_infos, &ggsw_infos);
+                            let r = if op == "cmux_assign" {
+                                windowed(declared, w, &mut |s| m.cmux_assign(&mut res, &a, &gp, s))
+                            } else {
+                                windowed(declared, w, &mut |s| m.cmux_assign_neg(&mut res, &a, &gp, s))
+                            };
+                            finish(r, declared, vec![res.data().data.clone()])
+                        }
+                    }
+                    "blind_rotation_execute" | "blind_rotation_execute_extended" | "blind_rotation_key_encrypt_sk" | "blind_rotation_key_prepare" => {
+                        let rank = sh.rank_out.min(2);
+                        let n_lwe = sh.n_lwe.max(2);
+                        let block = if n_lwe % 3 == 0 { 3 } else if n_lwe % 2 == 0 { 2 } else { 1 };
+                        let brk_infos = BlindRotationKeyLayout {
+                            n_glwe: Degree(sh.n),
+                            n_lwe: Degree(n_lwe),
+                            base2k: Base2K(sh.b_key),
+                            k: TorusPrecision(sh.k_key),
+                            dnum: Dnum(sh.k_key.div_ceil(sh.b_key).saturating_sub(1).max(1).min(1 + sh.extra % 3)),
+                            rank: Rank(rank),
+                        };
+                        let enc = EncryptionLayout::new_from_default_sigma(brk_infos).unwrap();
+                        let mut sk_lwe: LWESecret<Vec<u8>> = LWESecret::alloc(Degree(n_lwe));
+                        sk_lwe.fill_binary_block(block as usize, &mut src(sh.seed, 9));
+                        let (_s, sp) = skp(c, rank, sh.seed);
+                        let mut brk: BlindRotationKey<Vec<u8>, CGGI> = BlindRotationKey::alloc(&brk_infos);
+                        if op == "blind_rotation_key_encrypt_sk" {
+                            let declared = m.blind_rotation_key_encrypt_sk_tmp_bytes(&brk_infos);
+                            let r = windowed(declared, w, &mut |s| {
+                                m.blind_rotation_key_encrypt_sk(&mut brk, &sp, &sk_lwe, &enc, &mut src(sh.seed, 3), &mut src(sh.seed, 4), s)
+                            });
+                            return Some(finish(r, declared, vec![ser(&brk)]));
+                        }
+                        m.blind_rotation_key_encrypt_sk(&mut brk, &sp, &sk_lwe, &enc, &mut src(sh.seed, 3), &mut src(sh.seed, 4), big.borrow());
+                        let mut bp: BlindRotationKeyPrepared<DeviceBuf<BE>, CGGI, BE> = BlindRotationKeyPrepared::alloc(m, &brk);
+                        let ext: usize = if op == "blind_rotation_execute_extended" { 2 } else { 1 };
+                        let res_infos = gl(sh.n, sh.b_key, sh.k_res.max(2), rank);
+                        let lwe_b = 3 + sh.extra;
+                        let lwe_infos = LWELayout {
+                            n: Degree(n_lwe),
+                            k: TorusPrecision(2 * lwe_b),
+                            base2k: Base2K(lwe_b),
+                        };
+                        let mut lwe: LWE<Vec<u8>> = LWE::alloc_from_infos(&lwe_infos);
+                        lwe.fill_uniform(lwe_b as usize, &mut src(sh.seed, 6));
+                        let lut_infos = LookUpTableLayout {
+                            n: Degree(sh.n),
+                            extension_factor: ext,
+                            k: TorusPrecision(sh.b_key),
+                            base2k: Base2K(sh.b_key),
+                        };
+                        let mut lut: LookupTable = LookupTable::alloc(&lut_infos);
+                        let f: Vec<i64> = (0..4).map(|i| 2 * i + 1).collect();
+                        lut.set(m, &f, 3);
+                        let mut res: GLWE<Vec<u8>> = GLWE::alloc_from_infos(&res_infos);
+                        if op == "blind_rotation_key_prepare" {
+                            let declared = m.blind_rotation_key_prepare_tmp_bytes(&brk_infos);
+                            let r = windowed(declared, w, &mut |s| m.prepare_blind_rotation_key(&mut bp, &brk, s));
+                            if r.0.is_ok() {
+                                m.blind_rotation_execute(&mut res, &lwe, &lut, &bp, big.borrow());
+                            }
+                            return Some(finish(r, declared, vec![res.data().data.clone()]));
+                        }
+                        m.prepare_blind_rotation_key(&mut bp, &brk, big.borrow());
+                        let declared = BlindRotationExecute::<CGGI, BE>::blind_rotation_execute_tmp_bytes(m, block as usize, ext, &res_infos, &brk_infos);
+                        let r = windowed(declared, w, &mut |s| m.blind_rotation_execute(&mut res, &lwe, &lut, &bp, s));
+                        finish(r, declared, vec![res.data().data.clone()])
+                    }
+                    "fhe_uint_encrypt_sk" | "fhe_uint_decrypt" => {
+                        let infos = gl(sh.n, sh.b_res, sh.k_res, rank);
+                        let enc = EncryptionLayout::new_from_default_sigma(infos).unwrap();
+                        let (_s, sp) = skp(c, rank, sh.seed);
+                        let mut word: FheUint<Vec<u8>, u8> = FheUint::alloc_from_infos(&infos);
+                        if op == "fhe_uint_encrypt_sk" {
+                            let declared = word.encrypt_sk_tmp_bytes(m);
+                            let r = windowed(declared, w, &mut |s| {
+                                word.encrypt_sk(m, sh.seed as u8, &sp, &enc, &mut src(sh.seed, 3), &mut src(sh.seed, 4), s)
+                            });
+                            let bytes: Vec<u8> = {
+                                use poulpy_core::layouts::GLWEToRef;
+                                let g = word.to_ref();
+                                let d: &[u8] = g.data().data;
+                                d.to_vec()
+                            };
+                            finish(r, declared, vec![bytes])
+                        } else {
+                            word.encrypt_sk(m, sh.seed as u8, &sp, &enc, &mut src(sh.seed, 3), &mut src(sh.seed, 4), big.borrow());
+                            let declared = word.decrypt_tmp_bytes(m);
+                            let mut out = 0u8;
+                            let r = windowed(declared, w, &mut |s| out = word.decrypt(m, &sp, s));
+                            finish(r, declared, vec![vec![out]])
+                        }
+                    }
+                    _ => return core_op3_g(op, sh, w),
+                };
+                Some(r)
+            }
+
+            /// poulpy-bin-fhe: operations selected / rotated by the bits of an encrypted word (the shared 8-bit word of the context).
+            fn core_op3_g(op: &str, sh: &Shape, w: &Window) -> Option<RunResult> {
+                use poulpy_bin_fhe::bdd_arithmetic::{GGSWBlindRotation, GLWEBlindRetrieval, GLWEBlindRetriever, GLWEBlindRotation, GLWEBlindSelection};
+                let c = ctx(sh.n, 1);
+                let m = &c.module;
+                // same radix as the selector bits (13); precision from one to three limbs
+                let b = 13u32;
+                let k = b * (1 + sh.extra % 3) - (sh.seed % 5) as u32;
+                let infos = gl(sh.n, b, k, 1);
+                let bit_rsh = (sh.extra as usize >> 2) % 3;
+                let bit_mask = 1 + (sh.seed as usize >> 12) % 3;
+                let bit_lsh = (sh.seed as usize >> 16) % 2;
+                let sign = sh.seed & (1 << 20) != 0;
+                let mk = |i: u64| -> GLWE<Vec<u8>> {
+                    let mut ct: GLWE<Vec<u8>> = GLWE::alloc_from_infos(&infos);
+                    ct.fill_uniform(b as usize, &mut src(sh.seed ^ (i << 32), 6));
+                    ct
+                };
+                let r = match op {
+                    "glwe_blind_selection" => {
+                        let count = 1 << bit_mask;
+                        let keep = sh.seed >> 24;
+                        let mut cts: Vec<(usize, GLWE<Vec<u8>>)> =
+                            (0..count).filter(|i| *i == 0 || (keep >> i) & 1 == 1).map(|i| (i, mk(i as u64))).collect();
+                        let mut res: GLWE<Vec<u8>> = GLWE::alloc_from_infos(&infos);
+                        let declared = <Module<BE> as GLWEBlindSelection<u8, BE>>::glwe_blind_selection_tmp_bytes(m, &infos, &c.ggsw_infos);
+                        let r = windowed(declared, w, &mut |s| {
+                            let mut map: std::collections::HashMap<usize, &mut GLWE<Vec<u8>>> = std::collections::HashMap::new();
+                            for (i, ct) in cts.iter_mut() {
+                                map.insert(*i, ct);
+                            }
+                            <Module<BE> as GLWEBlindSelection<u8, BE>>::glwe_blind_selection(m, &mut res, map, &c.inputs, bit_rsh, bit_mask, s)
+                        });
+                        finish(r, declared, vec![res.data().data.clone()])
+                    }
+                    "glwe_blind_rotation" | "glwe_blind_rotation_assign" => {
+                        let mut a = mk(1);
+                        let declared = m.glwe_blind_rotation_tmp_bytes(&infos, &c.ggsw_infos);
+                        if op == "glwe_blind_rotation" {
+                            let mut res: GLWE<Vec<u8>> = GLWE::alloc_from_infos(&infos);
+                            let r = windowed(declared, w, &mut |s| {
+                                m.glwe_blind_rotation(&mut res, &a, &c.inputs, sign, bit_rsh, bit_mask, bit_lsh, s)
+                            });
+                            finish(r, declared, vec![res.data().data.clone()])
+                        } else {
+                            let r = windowed(declared, w, &mut |s| {
+                                m.glwe_blind_rotation_assign(&mut a, &c.inputs, sign, bit_rsh, bit_mask, bit_lsh, s)
+                            });
+                            finish(r, declared, vec![a.data().data.clone()])
+                        }
+                    }
+                    "glwe_blind_retrieval_statefull" | "glwe_blind_retrieval_statefull_rev" => {
+                        let count = 1 + (sh.seed as usize >> 24) % (1 << bit_mask);
+                        let mut cts: Vec<GLWE<Vec<u8>>> = (0..count).map(|i| mk(i as u64)).collect();
+                        let declared = m.glwe_blind_retrieval_tmp_bytes(&infos, &c.ggsw_infos);
+                        let r = if op == "glwe_blind_retrieval_statefull" {
+                            windowed(declared, w, &mut |s| m.glwe_blind_retrieval_statefull(&mut cts, &c.inputs, bit_rsh, bit_mask, s))
+                        } else {
+                            windowed(declared, w, &mut |s| m.glwe_blind_retrieval_statefull_rev(&mut cts, &c.inputs, bit_rsh, bit_mask, s))
+                        };
+                        finish(r, declared, cts.iter().map(|x| x.data().data.clone()).collect())
+                    }
+                    "glwe_blind_retriever_retrieve" => {
+                        let count = 1 + (sh.seed as usize >> 24) % 6;
+                        let cts: Vec<GLWE<Vec<u8>>> = (0..count).map(|i| mk(i as u64)).collect();
+                        let mut retriever = GLWEBlindRetriever::alloc(&infos, count.max(2));
+                        let mut res: GLWE<Vec<u8>> = GLWE::alloc_from_infos(&infos);
+                        let declared = GLWEBlindRetriever::retrieve_tmp_bytes(m, &infos, &c.ggsw_infos);
+                        let r = windowed(declared, w, &mut |s| retriever.retrieve(m, &mut res, &cts, &c.inputs, bit_rsh, s));
+                        finish(r, declared, vec![res.data().data.clone()])
+                    }
+                    "ggsw_blind_rotation" | "ggsw_blind_rotation_assign" | "scalar_to_ggsw_blind_rotation" => {
+                        let kk = k.max(b + 1);
+                        let size = kk.div_ceil(b);
+                        let ginfos = GGSWLayout {
+                            n: Degree(sh.n),
+                            base2k: Base2K(b),
+                            k: TorusPrecision(kk),
+                            rank: Rank(1),
+                            dnum: Dnum(1 + (sh.seed as u32 >> 28) % size),
+                            dsize: Dsize(1),
+                        };
+                        let mut a: GGSW<Vec<u8>> = GGSW::alloc_from_infos(&ginfos);
+                        a.fill_uniform(b as usize, &mut src(sh.seed, 6));
+                        let mut res: GGSW<Vec<u8>> = GGSW::alloc_from_infos(&ginfos);
+                        match op {
+                            "ggsw_blind_rotation" => {
+                                let declared = <Module<BE> as GGSWBlindRotation<u8, BE>>::ggsw_to_ggsw_blind_rotation_tmp_bytes(m, &ginfos, &c.ggsw_infos);
+                                let r = windowed(declared, w, &mut |s| {
+                                    <Module<BE> as GGSWBlindRotation<u8, BE>>::ggsw_blind_rotation(
+                                        m, &mut res, &a, &c.inputs, sign, bit_rsh, bit_mask, bit_lsh, s,
+                                    )
+                                });
+                                finish(r, declared, vec![ser(&res)])
+                            }
+                            "ggsw_blind_rotation_assign" => {
+                                let declared = <Module<BE> as GGSWBlindRotation<u8, BE>>::ggsw_to_ggsw_blind_rotation_tmp_bytes(m, &ginfos, &c.ggsw_infos);
+                                let r = windowed(declared, w, &mut |s| {
+                                    <Module<BE> as GGSWBlindRotation<u8, BE>>::ggsw_blind_rotation_assign(
+                                        m, &mut a, &c.inputs, sign, bit_rsh, bit_mask, bit_lsh, s,
+                                    )
+                                });
+                                finish(r, declared, vec![ser(&a)])
+                            }
+                            _ => {
+                                let mut tv: poulpy_hal::layouts::ScalarZnx<Vec<u8>> = poulpy_hal::layouts::ScalarZnx::alloc(sh.n as usize, 1);
+                                tv.fill_uniform(3, &mut src(sh.seed, 2));
+                                let declared =
+                                    <Module<BE> as GGSWBlindRotation<u8, BE>>::scalar_to_ggsw_blind_rotation_tmp_bytes(m, &ginfos, &c.ggsw_infos);
+                                let r = windowed(declared, w, &mut |s| {
+                                    <Module<BE> as GGSWBlindRotation<u8, BE>>::scalar_to_ggsw_blind_rotation(
+                                        m, &mut res, &tv, &c.inputs, sign, bit_rsh, bit_mask, bit_lsh, s,
+                                    )
+                                });
+                                finish(r, declared, vec![ser(&res)])
+                            }
+                        }
                     }
                     _ => return None,
                 };
